@@ -101,6 +101,23 @@ CHECKS = {
              "Trusted: the Coq transcription of the nom tokenizers; stable-sort model of sort_unstable (files with duplicate addresses/indices are not compared).",
         technique="Coq proof (refinement of a byte-at-a-time specification by the slice-based line buffer, induction over chunks and fuel) + differential correspondence run with a text-level specification evaluated by vm_compute",
         design="4/C10"),
+    "C07": dict(
+        text="Coq theorems C07_shape_and_truth (for every request with valid module indices - any number of jobs, repeated / unknown / malformed-id / unused modules, modules shared "
+             "between jobs, stacks of any length - and every sane symbol oracle: one result per job, one stack per stack, one frame per frame in order, each echoing position, module and offset and "
+             "carrying exactly what a direct lookup yields, nothing for unloadable modules; none of the unwrap/index/subtraction sites panics), C07_bad_index (an out-of-range module index yields an error "
+             "response) and C07_found_modules. Tied to samply-api by generated requests over fixture binaries and generated Breakpad modules with the direct lookups as oracle, specification + model evaluated in Coq.",
+        note="Trusted: Coq kernel; the symbol manager as oracle (direct lookups); harness h_api; JSON decoding in Python with string interning. "
+             "Interpretations: a debug-info line number 0 is omitted by the API; absent debug_info and all-absent fields are identified.",
+        technique="Coq proof (the gather / symbolicate / rebuild pipeline over association lists refines a per-frame specification; membership invariants by induction) + differential correspondence run evaluated by vm_compute",
+        design="4/C07,C09"),
+    "C09": dict(
+        text="Coq theorems C09_only_listed (a file is read only if the requested string is exactly the API spelling of a file of that offset's frames, and the file read is that frame's debug-info path - the first such frame - "
+             "not the request string), C09_refused_reads_nothing and C09_symbolicate_paths_accepted (every path /symbolicate/v5 reports for an offset is accepted for it). Tied to samply-api by /source/v1 requests "
+             "with listed paths, paths of other offsets, arbitrary paths and many decorations/respellings, observing which locations the helper is asked to load beyond those touched by the lookup itself.",
+        note="Trusted: Coq kernel; harness h_api (load log, re-implemented API spelling); the source files do not exist on disk so acceptance shows as a load attempt. "
+             "Only one fixture (WriteArgument.pdb, srcsrv) has API spelling different from the raw path; the generator gives it extra weight.",
+        technique="Coq proof (decision rule of the source API as a function of the lookup frames; first-match characterisation) + differential correspondence run evaluated by vm_compute",
+        design="4/C07,C09"),
 }
 
 NOT_YET = "check not built yet in this development (planned: see DESIGN.md section 4); no claim is made"
